@@ -28,6 +28,7 @@ Inductive case :=
 | CAllFrames (v : impl) (id : Z) (s : str)                      (* translate for (plus, minus) x start 0,1,2 *)
 | CPinnedFrames (id : Z) (s : str)                              (* same, pre-repair model [translate_pinned] *)
 | CRc2 (v : impl) (m : moltype) (s : str)                       (* rc(rc(s)) *)
+| CViewOps (v : impl) (m : moltype) (s : str) (ops : list vop)  (* str() after each of rc / complement / slice on a sequence object *)
 | CAppFrames (id : Z) (s : str) (allow_rc : bool)               (* app.translate.translate_frames *)
 | CBestFrame (id : Z) (s : str) (allow_rc : bool)               (* app.translate.best_frame *)
 | CSelect (id : Z) (seqs : list str) (allow_rc : bool)          (* select_translatable: kept sequences, trim False / True *)
@@ -84,6 +85,7 @@ Definition run_case (c : case) : val :=
   | CPinnedFrames id s =>
       VL (flat_map (fun mn => map (fun st => VS (translate_pinned (code_aa New id) s st mn)) [0; 1; 2]) [false; true])
   | CRc2 v m s => vres VS (bind (rc v m s) (rc v m))
+  | CViewOps v m s ops => vstrs (sview_trace (comp_table v m) (mk_sview s false) ops)
   | CAppFrames id s allow_rc => vres vstrs (translate_frames (code_aa Old id) DNA s allow_rc)
   | CBestFrame id s allow_rc => vres VZ (best_frame (code_aa Old id) s allow_rc)
   | CSelect id seqs allow_rc =>
